@@ -1,6 +1,8 @@
 package rules
 
 import (
+	"fmt"
+
 	"golang.org/x/tools/go/ssa"
 
 	"bvcheck/internal/cmpeval"
@@ -13,9 +15,9 @@ func init() {
 		ID:    "C02",
 		Title: "Highest version wins: one point per series and timestamp",
 		Decides: "the two comparators version resolution rests on induce exactly the stated orders — measure.dataPoints.Less ≡ lex(seriesID↑, timestamp↑, version↓) (so the first of equal (series,timestamp) rows is the highest version, which the write-path de-duplication keeps) and measure.queryResult.Less ≡ lex(ts by direction, seriesID↑, version↓) / lex(series position↑, ts↑, version↓) — over every weak ordering of their operands; " +
-			"the batch is sorted before the duplicate-skipping loop runs, and within that loop the per-series timestamp cursor is re-based whenever the series cursor changes.",
-		NotDecided: "the equal-timestamp branch of mergeTwoBlocks and the replace decision of queryResult.merge (index arithmetic over loop state, outside the comparison-only fragment), hence not the agreement of write path, merge and query on every input; equal-version ties.",
-		Technique:  "finite-domain abstract interpretation of comparator syntax trees over all weak orderings of their atoms; CFG dominance; per-iteration path enumeration of paired loop-carried updates",
+			"the batch is sorted before the duplicate-skipping loop runs, and within that loop the per-series timestamp cursor is re-based whenever the series cursor changes; merge (mergeTwoBlocks) and query (queryResult.Less) read the two versions they compare at exactly the indices whose timestamps they found equal; every window of the versions column copied in package measure has a timestamps window with canonically equal bounds (the columns stay row-parallel).",
+		NotDecided: "which rows the equal-timestamp branch of mergeTwoBlocks appends and the replace decision of queryResult.merge (index arithmetic over loop state, outside the comparison-only fragment), hence not the agreement of write path, merge and query on every input; equal-version ties.",
+		Technique:  "finite-domain abstract interpretation of comparator syntax trees over all weak orderings of their atoms; CFG dominance; per-iteration path enumeration of paired loop-carried updates; canonical symbolic expression equality of indices and slice bounds",
 		Run:        runC02,
 	})
 }
@@ -52,4 +54,86 @@ func runC02(c *core.Ctx) {
 		}
 		r.pairedLoopUpdate("c02.dedup-cursors", f, "indexPrev", "tsPrev", "a stale timestamp cursor makes the first rows of the next series look like duplicates of the previous series' last timestamp and drops acknowledged points")
 	}
+
+	// merge and query decide a duplicate timestamp by the versions of exactly the two colliding rows
+	versionIndexAgreement(r, "c02.version-index-agreement")
+
+	// timestamps and versions are row-parallel columns: wherever a window of one is copied, the same window
+	// of the other is (otherwise a point is labelled with another point's version)
+	columnWindowsAgree(r, "c02.column-windows-agree", m, "timestamps", "versions", 4)
+}
+
+// columnWindowsAgree: in every function of pkg that slices column b of some value, and also slices column a of
+// the same value, each b-window [lo:hi] has an a-window with canonically equal bounds.
+func columnWindowsAgree(r *R, rule, pkg, a, b string, floor int) {
+	type win struct {
+		base, lo, hi string
+		in           ssa.Instruction
+	}
+	colOf := func(sl *ssa.Slice) (string, string) {
+		x := sl.X
+		if l, ok := x.(*ssa.UnOp); ok {
+			x = l.X
+		}
+		fv := ssax.FieldOf(x)
+		if fv == nil {
+			return "", ""
+		}
+		var base ssa.Value
+		switch y := x.(type) {
+		case *ssa.FieldAddr:
+			base = y.X
+		case *ssa.Field:
+			base = y.X
+		default:
+			return "", ""
+		}
+		return fv.Name(), ssax.Canon(base)
+	}
+	for _, f := range r.P.ModuleFuncs(pkg) {
+		var as, bs []win
+		for _, blk := range f.Blocks {
+			for _, in := range blk.Instrs {
+				sl, ok := in.(*ssa.Slice)
+				if !ok {
+					continue
+				}
+				col, base := colOf(sl)
+				w := win{base, ssax.Canon(sl.Low), ssax.Canon(sl.High), in}
+				switch col {
+				case a:
+					as = append(as, w)
+				case b:
+					bs = append(bs, w)
+				}
+			}
+		}
+		for i, w := range bs {
+			if w.lo == "nil" && w.hi == "nil" {
+				continue // x[:] / x[:0] style resets carry no window
+			}
+			var same []win
+			for _, v := range as {
+				if v.base == w.base && !(v.lo == "nil" && v.hi == "nil") {
+					same = append(same, v)
+				}
+			}
+			if len(same) == 0 {
+				continue
+			}
+			ok := false
+			for _, v := range same {
+				if v.lo == w.lo && v.hi == w.hi {
+					ok = true
+				}
+			}
+			construct := fmt.Sprintf("%s: %s window #%d equals a %s window of the same value", ssax.FuncName(f), b, i+1, a)
+			if ok {
+				r.Hold(rule, construct, r.pos(w.in), "["+w.lo+":"+w.hi+"]")
+			} else {
+				r.Violate(rule, construct, r.pos(w.in), fmt.Sprintf("%s[%s:%s] is copied next to %s[%s:%s] of the same value: the rows of the two columns no longer line up", b, w.lo, w.hi, a, same[0].lo, same[0].hi))
+			}
+		}
+	}
+	r.Floor(rule, floor)
 }
